@@ -9,7 +9,7 @@ TARGETS = ["theories/Properties/C19.vo"]
 PROPERTIES_FILE = "theories/Properties/C19.v"
 IMPL = "harness.props.c19_impl"
 TABLE_DEPS = []
-SHARD = 400
+SHARD = 150
 FINDINGS = {}
 EXHAUSTIVE = {"quick": False, "thorough": False}
 RULE = ("bencode: generated message streams (1-4 canonical messages: ints of any size, byte strings over "
@@ -88,14 +88,13 @@ def gen_stream(rng):
 
 
 def cases(tier, rng):
-    n_streams = 110 if tier == "quick" else 1500
+    n_streams = 400 if tier == "quick" else 5000
     streams = list(FIXED_STREAMS) + [gen_stream(rng) for _ in range(n_streams)]
     for msgs in streams:
         total = sum(len(py_encode(m)) for m in msgs)
         if total > 160 and tier == "quick":
             continue
-        for cut in range(total + 1):
-            yield {"k": "bstream", "msgs": msgs, "cut": cut}
+        yield {"k": "bstream", "msgs": msgs}
     for msgs in streams[: (60 if tier == "quick" else 400)]:
         for m in msgs:
             yield {"k": "benc", "v": m}
@@ -116,17 +115,21 @@ def cases(tier, rng):
 
 
 # ---- Gallina -------------------------------------------------------------------------
+def hx(b):
+    return '(hx "' + bytes(b).hex() + '")'
+
+
 def coq_bval(j):
     if j is None:
         return "BNil"
     if "i" in j:
         return f"(BInt {G.z(j['i'])})"
     if "s" in j:
-        return f"(BStr {G.bs(bytes(j['s']))})"
+        return f"(BStr {hx(j['s'])})"
     if "l" in j:
         return "(BList " + G.lst([coq_bval(e) for e in j["l"]], "bval") + ")"
     if "d" in j:
-        return "(BDict " + G.lst([f"({G.bs(bytes(k))}, {coq_bval(v)})" for k, v in j["d"]], "(bytes * bval)") + ")"
+        return "(BDict " + G.lst([f"({hx(k)}, {coq_bval(v)})" for k, v in j["d"]], "(bytes * bval)") + ")"
     raise ValueError(j)
 
 
@@ -145,9 +148,9 @@ def _has_other(j):
 def coq_case(c):
     k = c["k"]
     if k == "bstream":
-        return "(CBStream " + G.lst([coq_bval(m) for m in c["msgs"]], "bval") + f" {G.n(c['cut'])})"
+        return "(CBStream " + G.lst([coq_bval(m) for m in c["msgs"]], "bval") + ")"
     if k == "braw":
-        return f"(CBRaw {G.bs(bytes(c['data']))})"
+        return f"(CBRaw {hx(c['data'])})"
     if k == "benc":
         return f"(CBEnc {coq_bval(c['v'])})"
     raise ValueError(k)
@@ -161,15 +164,20 @@ def coq_out(o):
     if "items" in o:
         if any(_has_other(i) for i in o["items"]):
             return "(OErr 2%N)"
-        return "(OBAll " + G.lst([coq_bval(i) for i in o["items"]], "bval") + " " + G.bs(bytes(o["rest"])) + ")"
+        return "(OBAll " + G.lst([coq_bval(i) for i in o["items"]], "bval") + " " + hx(o["rest"]) + ")"
+    if "cuts" in o:
+        if any(_has_other(i) for its, _ in o["cuts"] for i in its):
+            return "(OErr 2%N)"
+        return "(OBCuts [" + "; ".join(
+            "(" + G.lst([coq_bval(i) for i in its], "bval") + ", " + hx(rest) + ")" for its, rest in o["cuts"]) + "])"
     if "bytes" in o:
-        return f"(OBytes {G.bs(bytes(o['bytes']))})"
+        return f"(OBytes {hx(o['bytes'])})"
     return "(OErr 2%N)"
 
 
 def nontrivial(c, o):
     if c["k"] == "bstream":
-        return c["cut"] > 0
+        return True
     if c["k"] == "braw":
         return len(c["data"]) > 0
     return True
@@ -177,7 +185,7 @@ def nontrivial(c, o):
 
 def describe(c):
     if c["k"] == "bstream":
-        return f"bencode stream of {len(c['msgs'])} messages cut after {c['cut']} bytes"
+        return f"bencode stream of {len(c['msgs'])} messages, every cut point"
     return c["k"]
 
 
@@ -187,8 +195,7 @@ def shrink(c):
         for i in range(len(msgs)):
             rest = msgs[:i] + msgs[i + 1:]
             if rest:
-                total = sum(len(py_encode(m)) for m in rest)
-                yield dict(c, msgs=rest, cut=min(c["cut"], total))
+                yield dict(c, msgs=rest)
     if c["k"] == "braw":
         d = c["data"]
         for i in range(len(d)):
@@ -199,5 +206,5 @@ def extra_evidence(cases_, outs):
     dist = {}
     for c in cases_:
         dist[c["k"]] = dist.get(c["k"], 0) + 1
-    streams = {str(c["msgs"]) for c in cases_ if c["k"] == "bstream"}
-    return {"input_distribution": dist, "bencode_streams": len(streams)}
+    cuts = sum(len(o.get("cuts", [])) for c, o in zip(cases_, outs) if c["k"] == "bstream")
+    return {"input_distribution": dist, "bencode_cut_points_evaluated": cuts}
